@@ -72,8 +72,10 @@ def gen_row(rng, row, single, rich=True, maxlen=None, italic_bias=0.0):
             'pac_color': None}
     if rich and kind < 0.12:
         spec['pac_italic'] = True
+        spec['to'] = rng.choice([0, 0, 1, 2, 3])
     elif rich and kind < 0.2:
         spec['pac_color'] = rng.randrange(0, 7)
+        spec['to'] = rng.choice([0, 0, 1, 2, 3])
     else:
         spec['col'] = rng.choice([0, 0, 4, 8, 12, 16, 20, 24, 28])
         spec['to'] = rng.choice([0, 0, 1, 2, 3])
@@ -241,6 +243,8 @@ PLAIN_POOL = 'abcdefghijklmnopqrstuvwxyzABCDEFGHIJKLMNOPQRSTUVWXYZ0123456789'
 
 def plain_text(rng, n, tag=''):
     """n characters: letters/digits with single inner blanks, no blank at either end."""
+    if n <= 0:
+        return ''
     s = tag
     while len(s) < n:
         if s and s[-1] != ' ' and len(s) < n - 1 and rng.random() < 0.18:
@@ -291,6 +295,8 @@ def gen_stream(rng, modes=None, rich=False, lengths=None, tagged=True):
     def row_text(maxlen=32):
         counter[0] += 1
         n = rng.choice(lengths) if lengths else rng.randrange(3, maxlen + 1)
+        if n == 0:
+            return ''
         tag = ('R%d' % counter[0]) if tagged and n >= 4 else ''
         return plain_text(rng, n, tag)
 
